@@ -1,10 +1,40 @@
 package sched
 
 import (
+	"cmp"
 	"fmt"
 	"iter"
 	"reflect"
+	"slices"
+	"sort"
 )
+
+// MapKeys returns the keys of m in a canonical order.  The rewriter turns `for k, v := range m` over a map in an
+// instrumented file into an iteration over MapKeys(m): Go leaves the order unspecified, so a fixed order is a legal
+// behaviour, and it removes the one source of nondeterminism a scheduler cannot own.
+func MapKeys[M ~map[K]V, K comparable, V any](m M) []K {
+	keys := make([]K, 0, len(m))
+	for k := range m {
+		keys = append(keys, k)
+	}
+	switch ks := any(keys).(type) {
+	case []string:
+		slices.Sort(ks)
+	case []int:
+		slices.Sort(ks)
+	case []int64:
+		slices.Sort(ks)
+	case []uint64:
+		slices.Sort(ks)
+	case []uint32:
+		slices.Sort(ks)
+	case []float64:
+		slices.SortFunc(ks, func(a, b float64) int { return cmp.Compare(a, b) })
+	default:
+		sort.Slice(keys, func(i, j int) bool { return fmt.Sprintf("%#v", keys[i]) < fmt.Sprintf("%#v", keys[j]) })
+	}
+	return keys
+}
 
 // Channels are modelled inside the scheduler: the real channel object is only an identity (and is kept in sync
 // for close, so that uninstrumented code selecting on a Done() channel still sees it).  All sends/receives of
